@@ -28,7 +28,7 @@ def cases(tier, seed):
     rng = np.random.default_rng(subseed("C03", seed))
     nrun = 2000 if tier == "quick" else 60000
     for i in range(nrun):
-        ps = gen.rand_spec(rng, FAMS, nmax=8)
+        ps = gen.rand_spec(rng, FAMS, nmax=8, boxes=("none", "mixed", "mixed", "boxed", "narrow", "lower", "upper", "boxed_degenerate", "nonneg", "unit", "zero_mixed"))
         if ps["family"] == "exp_wall":
             ps["start"] = "interior"
         cfg = {
@@ -44,16 +44,54 @@ def cases(tier, seed):
         yield {"problem": ps, "cfg": cfg}
     # restarts combined with a gradient scaler (the checkpoint documentation names "some scaling must be performed before
     # starting L-BFGS-B" as a use of restarts)
-    nres = 300 if tier == "quick" else 8000
+    nres = 450 if tier == "quick" else 9000
     for i in range(nres):
         ps = gen.rand_spec(rng, ("qp", "rosenbrock", "rastrigin", "styblinski_tang", "qp_quartic", "beale"), nmax=6)
         cfg = {"jac": "callable", "maxcor": int(rng.integers(1, 8)), "maxls": int(gen.pick(rng, [2, 5, 20])), "maxiter": int(rng.integers(1, 5)),
                "maxfun": 15000, "ftol": 0.0, "gtol": 1e-9, "cb": "never"}
-        yield {"problem": ps, "cfg": cfg, "restart": {"scenario": "scaler_over_unscaled_checkpoint" if i % 3 else "scaler_over_scaled_checkpoint",
-                                                     "s": float(np.exp(rng.uniform(np.log(1e-2), np.log(1e2)))), "extra": int(rng.integers(1, 5))}}
+        scen = ("scaler_over_scaled_checkpoint", "scaler_over_unscaled_checkpoint", "resume_from_kept_callback_state")[i % 3]
+        if scen == "resume_from_kept_callback_state":
+            cfg["maxiter"] = int(rng.integers(4, 10))
+        yield {"problem": ps, "cfg": cfg, "restart": {"scenario": scen, "s": float(np.exp(rng.uniform(np.log(1e-2), np.log(1e2)))),
+                                                     "extra": int(rng.integers(1, 5)), "keep": int(rng.integers(0, 3))}}
+
+
+def run_resume(spec, out):
+    """A user keeps the state handed to the callback at iteration k (the object itself, as documented: "same fields as the ones
+    from the return"), lets the run go on, and later resumes from the kept state. The resumed leg is a run like any other."""
+    P = gen.make_problem(spec["problem"])
+    cfg = dict(spec["cfg"])
+    rs = spec["restart"]
+    kept = {}
+
+    def keep(i, xk, state):
+        if i == rs["keep"]:
+            kept["state"] = state
+        return False
+
+    a = probes.run_min(P, cfg, hooks={"on_cb": keep})
+    out.count("restart_runs")
+    if a.exc is not None or "state" not in kept:
+        out.count("resume_not_applicable")
+        return
+    st = kept["state"]
+    x_resume = np.array(st.x, dtype=float, copy=True)
+    b = probes.run_min(P, dict(cfg, maxiter=int(st.nit) + rs["extra"]), checkpoint=st, x0=x_resume)
+    if b.exc is not None:
+        out.violate("resume_from_kept_state_raised", f"resume {P.spec['family']}: {b.exc!r}", scenario=rs["scenario"], family=P.spec["family"])
+        return
+    P2 = gen.make_problem(spec["problem"])
+    P2.x0 = x_resume
+    out.count("restart_runs:" + rs["scenario"])
+    e2e.mon_monotone(out, P2, b, dict(family=P.spec["family"], mode="callable", scenario=rs["scenario"]))
+    out.nontrivial = True
+    out.key = f"restart/{P.spec['family']}/{P.spec['seed']}/{rs['scenario']}"
+    out.sample = dict(spec=spec)
 
 
 def run_restart(spec, out):
+    if spec["restart"]["scenario"] == "resume_from_kept_callback_state":
+        return run_resume(spec, out)
     P = gen.make_problem(spec["problem"])
     cfg = dict(spec["cfg"])
     rs = spec["restart"]
